@@ -178,6 +178,9 @@ func c02ReadOnly(c *eng.Ctx) {
 				if name == "errors.New" || strings.HasPrefix(name, "builtin:") {
 					continue
 				}
+				if callee := call.Common().StaticCallee(); callee != nil && eng.FuncPkgRel(callee) == localEPPkg && eng.PureHelper(callee) {
+					continue // a verdict-only helper is part of the guard itself
+				}
 				n++
 				var g []eng.Atom
 				if f == fn {
